@@ -85,3 +85,33 @@ func init() {
 		return fmt.Sprintf("def %s : Bool := %v", f.Lean, pCall != 0 && pAssign != 0 && pCall < pAssign), nil
 	})
 }
+
+func init() {
+	// sync_call: the function calls Name at least once and none of these calls is the call of a `go` (or
+	// `defer`) statement.  Lean: `def <lean> : Bool`.
+	Register("sync_call", func(repo string, f Fact) (string, error) {
+		fset, fd, err := findFunc(repo, f.File, f.Func)
+		if err != nil {
+			return "", err
+		}
+		calls, detached := 0, 0
+		ast.Inspect(fd, func(n ast.Node) bool {
+			switch x := n.(type) {
+			case *ast.GoStmt:
+				if exprString(fset, x.Call.Fun) == f.Name {
+					detached++
+				}
+			case *ast.DeferStmt:
+				if exprString(fset, x.Call.Fun) == f.Name {
+					detached++
+				}
+			case *ast.CallExpr:
+				if exprString(fset, x.Fun) == f.Name {
+					calls++
+				}
+			}
+			return true
+		})
+		return fmt.Sprintf("def %s : Bool := %v", f.Lean, calls > 0 && detached == 0), nil
+	})
+}
